@@ -111,6 +111,16 @@ func loadNames(path string) NamesFile {
 
 // renamedLocal: the current variable of fn that the recorded name refers to, when fn has no variable of that name.
 func (p *Program) renamedLocal(fn *ssa.Function, name string) *ssa.Alloc {
+	if as := p.renamedLocals(fn, name); len(as) > 0 {
+		return as[0]
+	}
+	return nil
+}
+
+// renamedLocals: every current variable that sits where the record has a variable called name (a function may
+// declare the same name in several scopes, e.g. the counters of two loops).
+func (p *Program) renamedLocals(fn *ssa.Function, name string) []*ssa.Alloc {
+	var out []*ssa.Alloc
 	rec := p.Names[fn.String()]
 	if rec == nil {
 		return nil
@@ -132,10 +142,10 @@ func (p *Program) renamedLocal(fn *ssa.Function, name string) *ssa.Alloc {
 			}
 		}
 		if !known {
-			return a
+			out = append(out, a)
 		}
 	}
-	return nil
+	return out
 }
 
 // recordedParam / recordedResult: the name a contract may still use for parameter / result i.
